@@ -292,7 +292,7 @@ class Interp:
         if isinstance(b, Const) and b.v == 1 and isinstance(a, Idx):
             if isinstance(n.op, ast.Sub):
                 if a.kind == 'U1' and a.lo and a.hi:
-                    return Idx('Z0', a.hi, a.src)
+                    return Idx('Z0', a.hi, a.src, bad=a.bad)
                 return a.clone(bad=f"{a!r} - 1 is not a valid 0-based index (not range-checked 1-based)")
             if isinstance(n.op, ast.Add):
                 if a.kind == 'Z0' and not a.bad:
@@ -486,6 +486,11 @@ class Interp:
                     # int() of a float truncates: whatever well comes out was not asked for - as a selector component it
                     # behaves like a user int from here on
                     return U1('truncated float')
+                if isinstance(v, StrV) or (isinstance(v, Idx) and v.kind == 'LBL'):
+                    # int() of a label string: from here on the component is a position typed by the user
+                    return Idx('U1', None, getattr(v, 'src', None) or 'digits of a label',
+                               bad='a label string was read as a position: a plate whose labels are digits other than '
+                                   'their position is addressed at the wrong well')
                 if isinstance(v, (Idx, Const)):
                     return v
                 return Other('int')
@@ -523,6 +528,9 @@ class Interp:
                 return Tup(Idx('LBL', None, f"{recv.src}.part{i}") for i in range(recv.parts))
             if name == 'split' and isinstance(recv, Idx) and recv.kind == 'LBL':
                 return Tup([recv])
+            if name in ('isdigit', 'isnumeric', 'isdecimal', 'isalpha', 'isalnum', 'islower', 'isupper') and \
+                    (isinstance(recv, StrV) or (isinstance(recv, Idx) and recv.kind == 'LBL')):
+                return Bool(None)       # a label may or may not consist of digits / letters
             if name == 'index' and isinstance(recv, Labels):
                 a = args[0]
                 if isinstance(a, Idx) and a.kind == 'LBL' and a.member == recv.axis:
